@@ -14,7 +14,7 @@ def expT (o : XOps α) (inverse : Bool) (x : α) : Except Err (α × α) :=
     else let y := o.log x; .ok (y, o.neg y)
   else .ok (o.exp x, x)
 
-/-- nonlinearities.py:36-50 -/
+/-- nonlinearities.py:38-54 -/
 def tanhT (o : XOps α) (inverse : Bool) (x : α) : Except Err (α × α) :=
   if inverse then
     if o.le x (o.neg o.one) || o.ge x o.one then .error .outsideDomain
@@ -22,8 +22,8 @@ def tanhT (o : XOps α) (inverse : Bool) (x : α) : Except Err (α × α) :=
       let y := o.mul (o.ofFloat 0.5) (o.log (o.div (o.add o.one x) (o.sub o.one x)))
       .ok (y, o.neg (o.log (o.sub o.one (o.mul x x))))
   else
-    let y := o.tanh x
-    .ok (y, o.log (o.sub o.one (o.mul y y)))
+    -- after the fix: 2 * (log 2 - x - softplus(-2x)), finite where tanh(x) rounds to one
+    .ok (o.tanh x, o.mul (o.ofFloat 2.0) (o.sub (o.sub (o.ofFloat (Float.log 2.0)) x) (o.softplus (o.mul (o.ofFloat (-2.0)) x))))
 
 /-- nonlinearities.py:53-118; `cut`, `invCut`, `alpha`, `beta` are the numpy doubles the constructor computes -/
 def logTanhT (o : XOps α) (cut invCut alpha beta : Float) (inverse : Bool) (x : α) : Except Err (α × α) :=
